@@ -203,6 +203,57 @@ func registerIntrinsics(e *Engine) {
 		e.setResult(st, c, e.strIndex(StrV{B: bs}, StrV{B: []*Term{a[1].(*Term)}}))
 		return nil
 	}
+	// ---- os.File: the engine's file model (content, offset, closed); full reads only
+	I["(*os.File).Seek"] = func(e *Engine, st *State, c ssa.CallInstruction, a []Value) []*State {
+		p := a[0].(PtrV)
+		f := e.load(st, PtrV{Obj: p.Obj, Path: []PathEl{{I: 2}}})
+		if f == Value(e.TT.True) {
+			e.setResult(st, c, TupleV{E: []Value{e.TT.Int(0), e.newError(st, "file already closed")}})
+			return nil
+		}
+		whence := a[2].(*Term)
+		if whence.Op != OpConst || whence.Val != 0 {
+			e.fail("os.File.Seek: only io.SeekStart is modelled")
+		}
+		e.store(st, PtrV{Obj: p.Obj, Path: []PathEl{{I: 1}}}, a[1])
+		e.setResult(st, c, TupleV{E: []Value{a[1], IfaceV{}}})
+		return nil
+	}
+	I["(*os.File).Read"] = func(e *Engine, st *State, c ssa.CallInstruction, a []Value) []*State {
+		p := a[0].(PtrV)
+		if e.load(st, PtrV{Obj: p.Obj, Path: []PathEl{{I: 2}}}) == Value(e.TT.True) {
+			e.setResult(st, c, TupleV{E: []Value{e.TT.Int(0), e.newError(st, "file already closed")}})
+			return nil
+		}
+		content := e.load(st, PtrV{Obj: p.Obj, Path: []PathEl{{I: 0}}}).(StrV)
+		offT := e.load(st, PtrV{Obj: p.Obj, Path: []PathEl{{I: 1}}}).(*Term)
+		if offT.Op != OpConst {
+			e.fail("os.File.Read at a symbolic offset")
+		}
+		off := int(offT.SignedVal())
+		b := a[1].(SliceV)
+		if off >= len(content.B) || off < 0 {
+			eof := e.load(st, e.globalPtrByName(st, "io", "EOF"))
+			e.setResult(st, c, TupleV{E: []Value{e.TT.Int(0), eof}})
+			return nil
+		}
+		n := len(content.B) - off
+		if b.Len < n {
+			n = b.Len
+		}
+		for i := 0; i < n; i++ {
+			e.store(st, PtrV{Obj: b.Arr, Path: []PathEl{{I: b.Off + i}}}, content.B[off+i])
+		}
+		e.store(st, PtrV{Obj: p.Obj, Path: []PathEl{{I: 1}}}, e.TT.Int(int64(off+n)))
+		e.setResult(st, c, TupleV{E: []Value{e.TT.Int(int64(n)), IfaceV{}}})
+		return nil
+	}
+	I["(*os.File).Close"] = func(e *Engine, st *State, c ssa.CallInstruction, a []Value) []*State {
+		p := a[0].(PtrV)
+		e.store(st, PtrV{Obj: p.Obj, Path: []PathEl{{I: 2}}}, e.TT.True)
+		e.setResult(st, c, IfaceV{})
+		return nil
+	}
 	// ---- math: concrete floats only
 	I["math.Min"] = func(e *Engine, st *State, c ssa.CallInstruction, a []Value) []*State {
 		e.setResult(st, c, FloatV{math.Min(a[0].(FloatV).F, a[1].(FloatV).F)})
@@ -242,9 +293,8 @@ func registerIntrinsics(e *Engine) {
 		"(*sync.RWMutex).RLock", "(*sync.RWMutex).RUnlock"} {
 		name := n
 		I[name] = func(e *Engine, st *State, c ssa.CallInstruction, a []Value) []*State {
-			if h, ok := e.Ctx["syncHook"].(func(*State, string, Value)); ok {
-				h(st, name, a[0])
-			}
+			kind := map[string]string{"Lock": "lock", "Unlock": "unlock", "RLock": "rlock", "RUnlock": "runlock"}[name[strings.LastIndex(name, ".")+1:]]
+			e.RecordSync(st, kind, a[0])
 			return nil
 		}
 	}
